@@ -384,7 +384,11 @@ def generate(prop, seed, tier, modes, conn_share=0.0, constraint_share=0.0):
             spec['incompat'] = []  # linked choices are not combined with incompatibilities (fast-encoder quirks, 9.3)
     spec = gen_dsg.add_dv_metrics(rng, spec, n_metric_max=0)
     if conn_share and rng.random() < conn_share:
-        spec = gen_dsg.add_conn_choice(rng, spec, p_group=0.0)
+        if rng.random() < 0.5:
+            spec = gen_dsg.add_conn_choice(rng, spec, p_group=0.0)
+        else:  # two small connection choices: the infeasible scenarios of each have to be excluded
+            for k in range(2):
+                spec = gen_dsg.add_conn_choice(rng, spec, cid=f'X{k}', p_group=0.0, max_side=2)
     mode = {'kind': rng.choice(modes), 'frac': round(rng.random(), 4)}
     has_conn = bool(spec.get('conn'))
     return {'property': prop, 'engine': ENGINE, 'seed': seed, 'spec': spec, 'mode': mode,
@@ -466,4 +470,4 @@ COMPONENTS = {'real': ['adsg_core GraphProcessor, complete and fast hierarchy an
 ASSUMPTIONS = ['R-sem / R-conn are the documented semantics; at least one source connector of a connection choice is '
                'permanent (the choice is always active); choice constraints are not generated.',
                'Declared spaces are decoded exhaustively up to 300 (quick) / 2000 (thorough) vectors, else sampled.',
-               'Small graphs (<= 12 named nodes, <= 4 selection choices, <= 1 connection choice of <= 3x3 connectors).']
+               'Small graphs (<= 12 named nodes, <= 4 selection choices, <= 1 connection choice of <= 3x3 or 2 of <= 2x2 connectors).']
